@@ -23,7 +23,11 @@ sibling / nested subgraphs with ``c_1``, ``c_2``, ``c_1_1`` held by other initia
 subgraph, of the main graph, or one that is an output of its branch and cannot leave it), by node outputs or by a Loop
 body input; function-internal values ``t`` / ``t_2`` of a function called several times where ``t``, ``t_2``, ``t_3`` ... are
 in use (``reach:subgraph_init_lifted_next_to_derived_names``, ``reach:call_inlined_next_to_derived_names``; decided
-on the protos, whatever planted them).  Outside the judged domain: initializers
+on the protos, whatever planted them); values whose ROLE and PAYLOAD disagree in a legal way - ``const_value`` on a value that
+is not a registered initializer is a hint that serialisation ignores: required main-graph inputs that carry one (built that
+way, or registered as initializer and popped from ``graph.initializers`` again) next to a real initializer with the same
+bytes, Loop-body and function formal inputs that carry one, node outputs with a truthful one (``reach:*_on_hinted_*``, read
+from the rebuilt IR model - deserialisation drops hints).  Outside the judged domain: initializers
 without a tensor (the library itself calls them invalid), function parameters of GRAPH type (the inliner documents
 that it refuses them), string tensors with trailing NUL bytes (both evaluators drop them when handing out strings).
 
@@ -440,6 +444,49 @@ def count_reach(ctx, case: GE.Case, proto, applied) -> None:
             ctx.count("reach:call_inlined_next_to_derived_names")
 
 
+def role_payload_stats(model: ir.Model) -> dict:
+    """Values of an IR model whose ROLE and PAYLOAD disagree in a legal way (never a verdict): ``const_value`` on a
+    value that is not a registered initializer is a hint that serialisation ignores.  Read from the public API."""
+    stats = Counter()
+    for k, graph in enumerate(model.graphs()):
+        registered = {id(v) for v in graph.initializers.values()}
+        for v in graph.inputs:
+            if v.const_value is not None and id(v) not in registered:
+                stats["hinted_main_input" if k == 0 else "hinted_subgraph_input"] += 1
+        for node in graph:
+            stats["hinted_node_output"] += sum(1 for o in node.outputs if o.const_value is not None)
+    for function in model.functions.values():
+        stats["hinted_function_input"] += sum(1 for v in function.inputs if v.const_value is not None)
+        for node in function.all_nodes():
+            stats["hinted_node_output"] += sum(1 for o in node.outputs if o.const_value is not None)
+    return stats
+
+
+# passes that decide by the ROLE of a value (initializer / graph input / constant)
+_ROLE_PASSES = {"RemoveInitializersFromInputsPass", "AddInitializersToInputsPass", "DeduplicateInitializersPass",
+                "DeduplicateHashedInitializersPass", "LiftSubgraphInitializersToMainGraphPass",
+                "LiftConstantsToInitializersPass", "RemoveUnusedNodesPass", "IdentityEliminationPass",
+                "CommonSubexpressionEliminationPass", "InlinePass"}
+
+
+def count_role_payload(ctx, case: GE.Case, source: str, flat) -> None:
+    """``reach:*`` counters: a pass sequence ran on a model that still carries the disagreement (the rebuilt copy;
+    deserialisation drops every hint)."""
+    if source != "built":
+        return
+    stats = case.__dict__.get("_c05_role_payload")
+    if stats is None:
+        stats = case.__dict__["_c05_role_payload"] = role_payload_stats(case.model)
+    names = {s[0] for s in flat}
+    for kind in ("hinted_main_input", "hinted_subgraph_input", "hinted_function_input", "hinted_node_output"):
+        if stats[kind]:
+            ctx.count(f"reach:sequence_on_{kind}")
+            if names & _ROLE_PASSES:
+                ctx.count(f"reach:role_deciding_pass_on_{kind}")
+            if kind == "hinted_main_input" and names & {"RemoveInitializersFromInputsPass", "AddInitializersToInputsPass"}:
+                ctx.count("reach:initializer_input_conversion_on_hinted_main_input")
+
+
 def overrides_allowed(specs) -> bool:
     """RemoveInitializersFromInputsPass legitimately turns an optional input into a constant; what
     later passes do with that constant (merge it, expose it again under the old name) is then
@@ -604,7 +651,13 @@ def _evaluator_self_consistent(e: str, case: GE.Case, proto, j: int) -> bool:
         rs = GE.RUNNERS[e](p, inputs, over) if over is not None else GE.RUNNERS[e](p, inputs)
         return rs[0] if rs else None
 
-    for original, reference in ((case.proto, base), (proto, None)):
+    # M: the evaluator must reproduce its own baseline on every equivalent encoding of M - otherwise there is
+    # no baseline to compare P(M) with.
+    # P(M): an equivalent encoding of P(M) on which the evaluator returns M's outputs contradicts the
+    # difference it reported; an encoding on which it returns yet other outputs does NOT rescue P(M) (a
+    # transformed model that is ill-defined - e.g. refers to an attribute parameter that does not exist - is
+    # typically evaluated differently by every encoding, and none of them equals M).
+    for on_m, original in ((True, case.proto), (False, proto)):
         for reencode in (_reencode_inlined, _reencode_outputs_through_identity):
             try:
                 other = reencode(original)
@@ -612,17 +665,17 @@ def _evaluator_self_consistent(e: str, case: GE.Case, proto, j: int) -> bool:
                 other = None
             if other is None:
                 continue
-            if reference is None:
-                r0 = run(original)
-                if r0 is None or not r0.ok:
-                    break
-                reference = r0.outputs
             r1 = run(other)
             if r1 is not None and not r1.ok and "nondeterministic" in (r1.reason or ""):
-                return False  # repeated runs of an equivalent encoding disagree with each other
+                if on_m:
+                    return False  # repeated runs of an equivalent encoding of M disagree with each other
+                continue
             if r1 is None or not r1.ok:
                 continue
-            if GE.same_outputs(reference, r1.outputs) is not None:
+            same_as_m = GE.same_outputs(base, r1.outputs) is None
+            if on_m and not same_as_m:
+                return False
+            if not on_m and same_as_m:
                 return False
     return True
 
@@ -857,7 +910,12 @@ def plan(tier: str) -> dict:
                        ("reach:call_with_absent_input_inlined", 8), ("reach:inline_added_opset_import", 6),
                        ("reach:cse_on_random_twins", 8), ("reach:identity_eliminated_with_symbolic_dims", 6),
                        # names derived by a pass already in use (observed on a loaded machine, 723 models: 48 / 21)
-                       ("reach:subgraph_init_lifted_next_to_derived_names", 6), ("reach:call_inlined_next_to_derived_names", 4)):
+                       ("reach:subgraph_init_lifted_next_to_derived_names", 6), ("reach:call_inlined_next_to_derived_names", 4),
+                       # role / payload disagreement (const_value hints on non-initializers) met by the passes that decide by
+                       # role (observed on a heavily loaded machine, 332 models: 23 / 67 / 24 / 16 / 31)
+                       ("reach:initializer_input_conversion_on_hinted_main_input", 4),
+                       ("reach:role_deciding_pass_on_hinted_main_input", 12), ("reach:role_deciding_pass_on_hinted_subgraph_input", 4),
+                       ("reach:role_deciding_pass_on_hinted_function_input", 3), ("reach:role_deciding_pass_on_hinted_node_output", 5)):
         floors[key] = floor if quick else 10 * floor
     return {
         "cases": 8000 if quick else 110000,
@@ -899,6 +957,7 @@ def run_sequence(ctx, case: GE.Case, rng: random.Random, number: int) -> None:
     if model is None or not flat:
         ctx.count("sequences_without_transformed_model")
         return
+    count_role_payload(ctx, case, source, flat)
     found = evaluate(case, model, ctx, overrides=overrides_allowed(flat), applied=flat)
     info = case.info
     nontrivial = any(flags) and (info["has_subgraph"] or info["has_function"] or info["has_planted_duplicate"])
